@@ -219,6 +219,32 @@ Fixpoint run (cfg : config) (ost : option state) (rqs : list rrequest)
     (ost2, (resp, evs) :: out)
   end.
 
+(* ---- client behaviour per request: the exchange does not depend on it ---------------------------- *)
+
+(** what the client does with its response receiver: await the response, drop the receiver at
+    once, or give up after [ms] of (virtual) time *)
+Inductive behaviour := BAwait | BDrop | BGiveUp (ms : N).
+(** the response reaches the client iff it still waits when the latency has elapsed *)
+Definition awaited (cfg : config) (b : behaviour) : bool :=
+  match b with
+  | BAwait => true
+  | BDrop => false
+  | BGiveUp ms => negb (N.ltb ms (c_latency cfg))
+  end.
+Definition mask (aw : bool) (p : rresp) : option rresp := if aw then Some p else None.
+
+(** the request loop seen by clients that may not wait: the response is observed only when
+    awaited; the exchange's processing and its notifications are those of [run_request] *)
+Fixpoint run_b (cfg : config) (ost : option state) (brqs : list (rrequest * bool))
+  : option state * list (option rresp * list event) :=
+  match brqs with
+  | [] => (ost, [])
+  | (rq, aw) :: t =>
+    let '(ost1, resp, evs) := run_request cfg ost rq in
+    let '(ost2, out) := run_b cfg ost1 t in
+    (ost2, (mask aw resp, evs) :: out)
+  end.
+
 (* ---- guards ------------------------------------------------------------------------------------ *)
 
 (** the inputs on which the code neither hits the [expect] nor the [assert_eq!]: every
